@@ -31,6 +31,9 @@ func checkC06(p *Prog, r *Report) {
 		r.Check(readsNft["GetClasses"] && readsNft["GetNFTsOfClass"] && readsNft["GetOwner"], "WMC:C06:pnft.ExportGenesis#reads-class+token+owner",
 			"the export reads every denom (class), every token and every token's current owner through the x/nft keeper's full iterators", p.FnPos(pexp),
 			"GetClasses, GetNFTsOfClass, GetOwner", fmt.Sprintf("x/nft reads on the export path: %v — a paginated query (Classes, NFTs) with no page request returns the first 100 entries only: denoms beyond that vanish at import and their ids can be claimed by anyone", keysOf(readsNft)))
+		// … for every denom: the export loop skips none and does not stop early (tokens that are not exported are gone after an
+		// import, without a burn, and their ids can be minted again by the denom owner)
+		checkPnftExportLoop(p, r, func(rule, rest string) string { return rule + ":C06:" + rest }, pexp)
 	} else {
 		r.Fail("WMC:C06:pnft.ExportGenesis#anchor", "anchor", "x/pnft", "ExportGenesis not found")
 	}
